@@ -27,7 +27,7 @@ ASSUMPTIONS = [
     "mixed-case keys on plain-dict copies are only checked on valid documents (messages for such copies need key lookup, which the statement does not promise)",
 ]
 TIERS = {
-    "quick": {"examples": 3000, "arbitrary": 2000, "budget_s": 110},
+    "quick": {"examples": 16000, "arbitrary": 8000, "budget_s": 110},
     "thorough": {"examples": 60000, "arbitrary": 40000, "budget_s": 1800},
 }
 PARTS = ["search"]
@@ -203,7 +203,7 @@ def search(acc: Acc, tier, shard, nshards):
             pool = [sc for sc in allc if sc[1][2] == kind] or allc
             deep = [sc for sc in pool if len(sc[0][2]) >= 2]
             site, cand = ch.choice(deep if (deep and ch.chance(2, 3)) else pool)
-            if any(f["dpath"] == list(site[2]) and (f["item"] == cand[0] or f["object_level"] or cand[0] is None) for f in flist):
+            if any(f["dpath"] == list(site[2]) and (f["key"] == cand[1] or f["object_level"] or cand[0] is None) for f in flist):
                 continue  # one fault per keyword; object-level faults not mixed with others in one object
             f = faults.apply_fault(ch, d, site, cand)
             if f is None:
@@ -224,7 +224,7 @@ def search(acc: Acc, tier, shard, nshards):
             if any(isinstance(x, int) and x > 0 for x in f["dpath"]):
                 acc.cls("fault_at_list_index>0")
         case = {"text": text, "root": root, "faults": flist, "dict_api": api, "doc": doc}
-        return check(d, root, flist, case, ch, public=(counter["i"] % 50 == 0))
+        return check(d, root, flist, case, ch, public=ch.chance(1, 50))
 
     hyp_search(acc, ID, "valid_plus_faults", shard, cfg["examples"] // nshards, body, tier)
 
@@ -275,6 +275,8 @@ def replay(case):
             o[f["key"]] = 1
         elif f["kind"] == "missing_required":
             o.pop(f["key"], None)
+        elif f["kind"] == "repeated_item":
+            o[f["key"]][f["occurrence"]] = eval(f["value"], {"__builtins__": {}}, {})
         else:
             o[f["key"]] = eval(f["value"], {"__builtins__": {}}, {})
     return check(d, case["root"], case.get("faults", []), case)
